@@ -116,6 +116,43 @@ def find_anchor(item_bytes, anchor, nth, what):
     return hits[nth]
 
 
+def ghost_only(text):
+    """lint: text spliced into a body (before/after/enter/loopbody) must consist of ghost code only:
+    `proof { .. }` blocks, `let ghost ..;`, `broadcast use ..;`, `hide(..);`, `reveal(..);`, `assert ..;`, comments, a bare `;`"""
+    t = re.sub(r"//[^\n]*", "", text)
+    i, n = 0, len(t)
+    while i < n:
+        if t[i].isspace() or t[i] == ";":
+            i += 1
+            continue
+        m = re.match(r"proof\s*\{", t[i:])
+        if m:
+            depth, j = 0, i + m.end() - 1
+            while j < n:
+                if t[j] == "{": depth += 1
+                elif t[j] == "}":
+                    depth -= 1
+                    if depth == 0: break
+                j += 1
+            if j >= n: return False
+            i = j + 1
+            continue
+        m = re.match(r"(let ghost\b|broadcast use\b|hide\(|reveal\(|assert\b)", t[i:])
+        if m:
+            # up to the terminating `;` at brace depth 0
+            depth, j = 0, i
+            while j < n:
+                if t[j] in "{([": depth += 1
+                elif t[j] in "})]": depth -= 1
+                elif t[j] == ";" and depth == 0: break
+                j += 1
+            if j >= n: return False
+            i = j + 1
+            continue
+        return False
+    return True
+
+
 def _apply_section(sec, head, it, data, s0, e0, what, edits, drop, tags_box, ret_box):
     body = "\n".join(sec["text"])
     tl = sec["tline"]
@@ -134,6 +171,8 @@ def _apply_section(sec, head, it, data, s0, e0, what, edits, drop, tags_box, ret
     elif kw == "spec":
         edits.append(Edit(it["body"][0], it["body"][0], "\n" + body + "\n", "ins:spec", tl))
     elif kw == "enter":
+        if not ghost_only(body):
+            raise GenError(f"template line {tl}: spliced text is not ghost-only")
         edits.append(Edit(it["body"][0] + 1, it["body"][0] + 1, "\n" + body + "\n", "ins:enter", tl))
     elif kw == "loop":
         k = int(w[1].rstrip(":"))
@@ -151,6 +190,8 @@ def _apply_section(sec, head, it, data, s0, e0, what, edits, drop, tags_box, ret
         if k >= len(it["loops"]):
             raise GenError(f"{what}: loop {k} not found (function has {len(it['loops'])} loops)")
         lp = it["loops"][k]
+        if not ghost_only(body):
+            raise GenError(f"template line {tl}: spliced text is not ghost-only")
         edits.append(Edit(lp["body_start"] + 1, lp["body_start"] + 1, "\n" + body + "\n", "ins:loopbody", tl))
     elif kw in ("before", "after"):
         m = ANCH.search(head)
@@ -161,6 +202,8 @@ def _apply_section(sec, head, it, data, s0, e0, what, edits, drop, tags_box, ret
         off = s0 + find_anchor(data[s0:e0], anchor, nth, what)
         if kw == "after":
             off += len(anchor.encode())
+        if not ghost_only(body):
+            raise GenError(f"template line {tl}: spliced text is not ghost-only: {body.strip()[:80]}")
         edits.append(Edit(off, off, ("\n" if kw == "before" else " ") + body + "\n", "ins:" + kw, tl))
     elif kw == "closure":
         k = int(w[1].rstrip(":"))
